@@ -43,6 +43,7 @@ func init() {
 }
 
 func rulesC10(c *Ctx) {
+	ruleTreeExtremeNilChecked(c, "C10.LLRBNIL", "boltz", "objectz", "ast")
 	ruleC10Assert(c)
 	ruleNilDeref(c, "C10.NILDEREF", c.prodFuncs("ast", "objectz", "boltz"))
 	c.Floor("C10.NILDEREF", 60)
